@@ -323,7 +323,7 @@ def scenario(sim: Sim) -> None:
         sim.loop.idle_hooks.append(on_idle)
 
         # one schedule for all streams, strictly increasing instants (>= 3 us apart)
-        nev = ch.int_between("nevents", 20, 90)
+        nev = ch.int_between("nevents", 20, sim.scale(90, 220))
         base_gap = ch.choice("base_gap_us", [200_000, 500_000, 1_000_000])
         for _ in range(nev):
             b = bats[ch.draw("bat", nbat)]
